@@ -94,3 +94,29 @@ Theorem C05_dimacs_concrete_runs_finish : forall fuel k maxd ignore_header (sr :
                   crun p (set_chunk (reader_init sr) c) = CDone a s'.
 Proof. exact parse_dimacs_any_chunking. Qed.
 Print Assumptions C05_dimacs_concrete_runs_finish.
+
+(* ------------------------------------------------------------------ *)
+(* AIGER (ascii, binary) and BTOR2, end to end (AigerSafe.v, Btor2Safe.v): every admissible run ends with a value. *)
+From Flussab Require Import Aiger AigerProofs AigerSafe Btor2 Btor2Proofs Btor2Safe.
+
+Theorem C05_aag_terminates_with_a_value : forall fuel maxc S fail r,
+  Forall (fun b => b < 256) S -> nlen S < 2 ^ 62 -> (length S < fuel)%nat ->
+  aruns (parse_aag fuel maxc lrs_init) (view_init S fail) r ->
+  exists out lr' v', r = ADone (out, lr') v'.
+Proof. exact parse_aag_safe. Qed.
+Print Assumptions C05_aag_terminates_with_a_value.
+
+Theorem C05_aig_terminates_with_a_value : forall fuel maxc S fail r,
+  Forall (fun b => b < 256) S -> nlen S < 2 ^ 62 -> (length S < fuel)%nat ->
+  aruns (parse_aig fuel maxc lrs_init) (view_init S fail) r ->
+  exists out lr' v', r = ADone (out, lr') v'.
+Proof. exact parse_aig_safe. Qed.
+Print Assumptions C05_aig_terminates_with_a_value.
+
+Theorem C05_btor2_terminates_with_a_value : forall fuel S fail r,
+  Forall (fun b => b < 256) S -> nlen S < 2 ^ 62 -> (length S < fuel)%nat ->
+  aruns (parse_btor2 fuel lrs_init) (view_init S fail) r ->
+  exists out lr' v', r = ADone (out, lr') v'.
+Proof. exact parse_btor2_safe. Qed.
+Print Assumptions C05_btor2_terminates_with_a_value.
+
